@@ -1,8 +1,8 @@
 \* thorough: the same over more class boundaries and payload thresholds, every kind as a late write
 SPECIFICATION KSpec
 CONSTANTS MaxLen = 2
-          BlobLens = {0, 1, 253, 254, 255}
-          KSet = {7, 15, 31}
+          BlobLens = {0, 1, 254, 255}
+          KSet = {7, 31}
           LateOps = {"Bool", "Byte", "Short", "UShort", "UShortB", "Int3", "Int", "UInt", "Long5", "Long", "Float", "Double",
                      "Decimal", "Blob", "Text", "ShortBytes", "IntBytes", "TextShort", "Raw", "IntArr", "TextArr", "LongArr"}
 INVARIANTS SizeOK ReadBack ExactConsumption NoStuck OutOK KComplete
